@@ -283,11 +283,12 @@ def replay_live():
     th = threading.Thread(target=acceptor, daemon=True)
     th.start()
     bad = None
-    c = Connection('127.0.0.1', port, username='u', allowed_versions={757})
+    c = Connection('127.0.0.1', port, username='u', allowed_versions={757}, handle_exception=False)
     try:
         c.connect()
         time.sleep(0.05)
         first = c.networking_thread
+        sock, fobj, queue = c.socket, c.file_object, c._outgoing_packet_queue
         for name in ('connect', 'status'):
             try:
                 getattr(c, name)()
@@ -296,8 +297,9 @@ def replay_live():
                 pass
             except Exception as e:
                 bad = bad or '%s() on an active connection raised %r instead of InvalidState' % (name, e)
-        if c.networking_thread is not first or c.new_networking_thread is not None:
-            bad = bad or 'the active connection was disturbed by the refused call'
+        if c.networking_thread is not first or c.new_networking_thread is not None or c.socket is not sock or \
+                c.file_object is not fobj or c._outgoing_packet_queue is not queue or not c.connected:
+            bad = bad or 'the active connection was disturbed by the refused call (socket / queue / thread slots replaced)'
         c.disconnect()
         if first is not None:
             first.join(3.0)
